@@ -177,6 +177,42 @@ def apply_mix_values(pb):
         pb["P"] = pb["P"].real + 0j
 
 
+def add_skew(r, pb):
+    """Non-self-adjoint data weight for NormalEquationsInversion:
+    W = S + K with S = Wr^H Wr (or I) and K = u v^H - v u^H (anti-Hermitian),
+    u orthogonal to range(Op) so that Op^H W Op = Op^H S Op stays Hermitian
+    positive definite (cg converges) while Op^H W y != Op^H W^H y.  Row k of
+    A is replaced to make u^H A = 0 with u_k = 1 (entries stay integers)."""
+    pb["K"] = None
+    m, n = pb["m"], pb["n"]
+    if m <= n or r.random() >= 0.4:
+        return
+    cv = pb["cplx"] and not pb["mix"]["real_op"]
+    k = r.randrange(m)
+    u = _ints(r, (m,), -2, 2, cv).astype(pb["A"].dtype)
+    v = _ints(r, (m,), -2, 2, cv).astype(pb["A"].dtype)
+    u[k] = 1
+    A = pb["A"].copy()
+    A[k] = -sum(np.conj(u[i]) * A[i] for i in range(m) if i != k)
+    K = np.outer(u, np.conj(v)) - np.outer(v, np.conj(u))
+    if not np.any(K):
+        return
+    pb["A"] = A
+    pb["K"] = K.astype(pb["A"].dtype)
+
+
+def S_of(pb):
+    Wr = pb["Wr"] if pb["Wr"] is not None else np.eye(pb["m"])
+    return Wr.conj().T @ Wr
+
+
+def Wne_of(pb):
+    """The Weight handed to NormalEquationsInversion (None = not given)."""
+    if pb.get("K") is not None:
+        return S_of(pb) + pb["K"]
+    return None if pb["Wr"] is None else S_of(pb)
+
+
 def op_dtype(pb):
     return "complex128" if (pb["cplx"] and not pb.get("mix", {}).get("real_op")) else "float64"
 
@@ -272,9 +308,13 @@ def dense_systems(pb):
     Nr = H(A) @ W @ A + sum((e ** 2 * H(R) @ R for e, R in zip(es, Rs)), np.zeros((n, n)))
     br = H(A) @ W @ y + sum((e ** 2 * H(R) @ d for e, R, d in zip(es, Rs, ds)), np.zeros(n))
     Nn = Nr + pb["epsI"] ** 2 * np.eye(n) + sum((e ** 2 * H(M) @ M for e, M in zip(pb["epsNRs"], pb["Ms"])), np.zeros((n, n)))
+    bn = br
+    if pb.get("K") is not None:      # documented: Op^H W Op and Op^H W y with W = S + K as given
+        Nn = Nn + H(A) @ pb["K"] @ A
+        bn = br + H(A) @ pb["K"] @ y
     Np = H(A) @ A
     bp = H(A) @ y
-    return {"NE": (Nn, br), "RI": (Nr, br), "PI": (Np, bp)}
+    return {"NE": (Nn, bn), "RI": (Nr, br), "PI": (Np, bp)}
 
 
 def cond(M):
@@ -291,6 +331,7 @@ def gen(idx):
         pb = gen_raw(r)
         pb["mix"] = draw_mix(common.rng("C12mix", idx, att), pb)
         apply_mix_values(pb)
+        add_skew(common.rng("C12skew", idx, att), pb)
         pb = finalize(pb)
         sy = dense_systems(pb)
         if cond(sy["NE"][0]) > COND_MAX or cond(sy["RI"][0]) > COND_MAX:
@@ -324,6 +365,9 @@ def mk_ops(pb):
     else:
         Wne = pylops.MatrixMult(rl(H(pb["Wr"]) @ pb["Wr"]).astype(dt), dtype=dt)
         Wri = pylops.MatrixMult(np.array(rl(pb["Wr"]), dtype=dt), dtype=dt)
+    Wsym = Wne
+    if pb.get("K") is not None:
+        Wne = pylops.MatrixMult(rl(Wne_of(pb)).astype(dt), dtype=dt)
     NRegs = [pylops.MatrixMult(rl(H(M) @ M).astype(dt), dtype=dt) for M in pb["Ms"]] or None
     epsNRs = list(pb["epsNRs"]) or None
     if pb["pkind"] == "I":
@@ -332,7 +376,7 @@ def mk_ops(pb):
         P = pylops.Diagonal(rl(np.diag(pb["P"])).astype(dt), dtype=dt)
     else:
         P = pylops.MatrixMult(np.array(rl(pb["P"]), dtype=dt), dtype=dt)
-    return dict(Op=Op, Regs=Regs, Wne=Wne, Wri=Wri, NRegs=NRegs, epsNRs=epsNRs, P=P, dt=dt,
+    return dict(Op=Op, Regs=Regs, Wne=Wne, Wsym=Wsym, Wri=Wri, NRegs=NRegs, epsNRs=epsNRs, P=P, dt=dt,
                 ydt="complex128" if pb["cplx"] else "float64")
 
 
@@ -378,7 +422,7 @@ def solve_variant(pb, solver, engine, x0kind, functional=False, plain=False, wan
         if plain:
             args = dict(Regs=None, Weight=None, dataregs=None, epsI=0.0, epsRs=None, NRegs=None, epsNRs=None)
         elif solver == "NEr":
-            args = dict(Regs=o["Regs"], Weight=o["Wne"], dataregs=dr(pb), epsI=0.0, epsRs=er(pb), NRegs=None, epsNRs=None)
+            args = dict(Regs=o["Regs"], Weight=o["Wsym"], dataregs=dr(pb), epsI=0.0, epsRs=er(pb), NRegs=None, epsNRs=None)
         else:
             args = dict(Regs=o["Regs"], Weight=o["Wne"], dataregs=dr(pb), epsI=pb["epsI"], epsRs=er(pb),
                         NRegs=o["NRegs"], epsNRs=o["epsNRs"])
@@ -527,10 +571,10 @@ def _lsq(pb, which, cplx):
     S = _S(cplx)
     H = lambda M: M.conj().T
     T = "(list (list %s))" % ("G" if cplx else "Qc")
-    if which == "PI" or pb["Wr"] is None:
+    if which == "NE" and Wne_of(pb) is not None:
+        W = "(Some %s)" % _ml(Wne_of(pb), cplx)
+    elif which in ("PI", "NE") or pb["Wr"] is None:
         W = "(@None %s)" % T
-    elif which == "NE":
-        W = "(Some %s)" % _ml(H(pb["Wr"]) @ pb["Wr"], cplx)
     else:
         W = "(Some %s)" % _ml(pb["Wr"], cplx)
     if which == "PI" or not pb["Rd"]:
@@ -605,7 +649,7 @@ def ser(pb):
             "regs_none": pb.get("regs_none", False),
             "ds": None if pb["ds"] is None else [v(d) for d in pb["ds"]], "epsRs": pb["epsRs"], "epsI": pb["epsI"],
             "Ms": [c(M) for M in pb["Ms"]], "epsNRs": pb["epsNRs"], "x0": v(pb["x0"]), "pkind": pb["pkind"], "P": c(pb["P"]),
-            "pi": pb.get("pi", True), "mix": pb.get("mix")}
+            "pi": pb.get("pi", True), "mix": pb.get("mix"), "K": c(pb.get("K"))}
 
 
 def deser(s):
@@ -618,7 +662,7 @@ def deser(s):
           "regs_none": s.get("regs_none", False),
           "dataregs": None, "epsRs": s["epsRs"], "epsI": s["epsI"], "Ms": [c(M) for M in s["Ms"]], "epsNRs": s["epsNRs"],
           "x0": v(s["x0"]), "pkind": s["pkind"], "P": c(s["P"]), "pi": s.get("pi", True), "id": 0,
-          "mix": s.get("mix") or no_mix()}
+          "mix": s.get("mix") or no_mix(), "K": c(s.get("K"))}
     pb["A"] = pb["A"].reshape(s["m"], s["n"])
     pb["Rd"] = reg_dense(pb)
     pb["ds"] = None if s["ds"] is None else [v(d) for d in s["ds"]]
@@ -678,6 +722,8 @@ def shrink(pb, tag):
         mods = [drop_reg(i) for i in range(len(cur["regs"]))] + [drop_nreg(i) for i in range(len(cur["Ms"]))]
         if cur["Wr"] is not None:
             mods.append(lambda t: t.update(Wr=None, wkind="none"))
+        if cur.get("K") is not None:
+            mods.append(lambda t: t.update(K=None))
         if cur["epsI"] != 0:
             mods.append(lambda t: t.update(epsI=0.0))
         if cur["ds"] is not None:
@@ -771,7 +817,7 @@ def main(tier):
     nsolves = 0
     nontriv = set()
     dist = {"real": 0, "complex": 0, "nregs": {}, "weight": {}, "epsI>0": 0, "epsI<0": 0, "NRegs>0": 0, "dataregs=None": 0, "epsRs=None": 0,
-            "with PI": 0, "rejected_ill_conditioned": 0, "m<n": 0, "dtype_mix": {}}
+            "with PI": 0, "rejected_ill_conditioned": 0, "m<n": 0, "dtype_mix": {}, "non_self_adjoint_W": 0}
     ncert = 0
     nfail_cert = 0
     for pb, rec in zip(pbs, recs):
@@ -784,6 +830,7 @@ def main(tier):
         dist["dataregs=None"] += pb["ds"] is None
         dist["epsRs=None"] += pb["epsRs"] is None
         dist["with PI"] += bool(pb["pi"])
+        dist["non_self_adjoint_W"] += pb.get("K") is not None
         dist["dtype_mix"][pb["mix"]["name"]] = dist["dtype_mix"].get(pb["mix"]["name"], 0) + 1
         dist["m<n"] += pb["m"] < pb["n"]
         dist["rejected_ill_conditioned"] += pb["rejected"]
@@ -837,6 +884,6 @@ def main(tier):
     for pb, rec in list(zip(pbs, recs))[:4]:
         tag, x = rec["xs"][0]
         R.samples.append({"n": pb["n"], "m": pb["m"], "complex": pb["cplx"], "weight": pb["wkind"], "regs": [g["kind"] for g in pb["regs"]],
-                          "epsRs": pb["epsRs"], "epsI": pb["epsI"], "epsNRs": pb["epsNRs"], "dataregs": None if pb["ds"] is None else "given", "dtype_mix": pb["mix"]["name"],
+                          "epsRs": pb["epsRs"], "epsI": pb["epsI"], "epsNRs": pb["epsNRs"], "dataregs": None if pb["ds"] is None else "given", "dtype_mix": pb["mix"]["name"], "non_self_adjoint_W": pb.get("K") is not None,
                           "A": [[str(t) for t in row] for row in pb["A"]], "call": tag, "x": [str(t) for t in x]})
     return R.finish()
